@@ -226,6 +226,13 @@ func runC09(ctx *Ctx) error {
 			s.Subject = "//WL2K " + string("ZOPR"[r.Intn(4)]) + "/ " + s.Subject
 		}
 		s.Subject = strings.TrimSpace(s.Subject)
+		if r.Intn(12) == 0 {
+			// text that looks like the start of an encoded word and is none
+			if r.Intn(2) == 0 {
+				s.Subject = "What is " + r.StringFrom(alnum+" ", r.Intn(10)) // (plain ASCII: goes out as it is)
+			}
+			s.Subject = strings.TrimSpace(s.Subject + []string{" 2+2=? answer", "=?", " =?x?", "=?iso-8859-1?", " a=?b?=c"}[r.Intn(5)])
+		}
 		if r.Intn(10) == 0 && len(s.Subject) >= 2 {
 			// a control character inside the subject (a line break, BEL, ESC, DEL), also when the rest
 			// is plain ASCII: the header stays one line and the subject comes back as it was set
